@@ -560,7 +560,7 @@ pub fn check(tier: Tier) -> i32 {
     let max_secs = tier.pick(2usize, 3usize);
     let hist_depth = tier.pick(2usize, 3usize);
     run.rule = format!(
-        "host module with all 13 standard sections; placement family: every list of <= {ms} custom sections over 5 names (\"\", \"a\" (twice = duplicate), producers [well-formed payloads: 0 fields / 1 field / ~300 B], target_features, 40 chars) x 3 payloads (empty, 1 B, 300 B) at every non-decreasing tuple of the 14 positions x name section {{absent, after data, at the very end}} x {{no edit, every single edit: add(15 atoms), delete(each live id + 1 out of range), push/clear/replace(each live id + 1 out of range)}} (lists of 3 sections: single edits with 4 add atoms and without name section; un-edited under every name-section variant); history family: every edit sequence of length <= {hd} (4 add atoms) on every list of <= {ms} sections over 4 atoms at spread positions (0, 7, 13) x name section {{absent, at end}}; each history prefix is a state, rebuilt by parse + replay; reference = Vec list model with positional ids; non-trivial class = (#sections, positions, duplicate names?, name-section variant, edit kinds incl. out-of-range)",
+        "host module with all 13 standard sections; placement family: every list of <= {ms} custom sections over 5 names (\"\", \"a\" (twice = duplicate), producers [well-formed payloads: 0 fields / 1 field / ~300 B], target_features, 40 chars) x 3 payloads (empty, 1 B, 300 B) at every non-decreasing tuple of the 14 positions x name section {{absent, after data, at the very end}} x {{no edit, every single edit: add(15 atoms), delete(each live id + 1 out of range), push/clear/replace(each live id + 1 out of range)}} (lists of 3 sections: single edits with 4 add atoms and without name section; un-edited under every name-section variant); history family: every edit sequence of length <= {hd} (4 add atoms) on every list of <= 3 sections over 4 atoms at spread positions (0, 7, 13) x name section {{absent, at end}}; each history prefix is a state, rebuilt by parse + replay; reference = Vec list model with positional ids; non-trivial class = (#sections, positions, duplicate names?, name-section variant, edit kinds incl. out-of-range)",
         ms = max_secs,
         hd = hist_depth
     );
@@ -608,7 +608,8 @@ pub fn check(tier: Tier) -> i32 {
 
     // ---- history family
     let spread = [0usize, 7, 13];
-    for k in 0..=max_secs {
+    // (lists of 3 sections in both tiers: a same-named pair with another section between them needs 3)
+    for k in 0..=3usize {
         let mut hs = vec![];
         histories(k, &SMALL_ADDS, hist_depth, &mut vec![], &mut hs);
         for at in atom_tuples(k, &SMALL_ATOMS) {
